@@ -8,6 +8,7 @@ import (
 	"go/constant"
 	"go/token"
 	"go/types"
+	"os"
 	"sort"
 	"strings"
 
@@ -229,7 +230,7 @@ type Explorer struct {
 	graph *Graph // call graph, built on first use (sole implementations of hand-written interfaces)
 	// loop-carried variables that only ever hold one of a few loop-invariant values (a value computed on
 	// first use and kept): tag+φ name → those values; filled by a first exploration, used by the second
-	phiHints map[string][]Val
+	phiHints      map[string][]Val
 	M             *Model
 	P             *Program
 	touches       map[*ssa.Function]bool
@@ -500,7 +501,22 @@ func (x *Explorer) constantTrip(fr *Frame, st *State, b, pred *ssa.BasicBlock) b
 	}
 	bound := func(v ssa.Value) bool {
 		if in, isInstr := v.(ssa.Instruction); isInstr && in.Block() == b {
-			return false // computed inside the header: not known before the loop
+			// computed inside the header: not known before the loop — except len(xs) of a slice value defined
+			// before the loop (`for i := 0; i < len(xs); i++` re-evaluates len in the header; xs is one SSA
+			// value, so its length does not change while the loop runs)
+			inv := false
+			if call, isCall := v.(*ssa.Call); isCall && len(call.Call.Args) == 1 {
+				if bi, isB := call.Call.Value.(*ssa.Builtin); isB && bi.Name() == "len" {
+					if ai, isI := call.Call.Args[0].(ssa.Instruction); !isI || ai.Block() != b {
+						if li := x.loopsOf(fr.fn); li == nil || !isInstrInLoop(li, b, call.Call.Args[0]) {
+							inv = true
+						}
+					}
+				}
+			}
+			if !inv {
+				return false
+			}
 		}
 		// unrolled are: tables of code (a literal slice whose elements carry function values), tables of
 		// cases written as a literal in this very function, and loops that only shuffle data (map / filter
@@ -526,7 +542,14 @@ func (x *Explorer) constantTrip(fr *Frame, st *State, b, pred *ssa.BasicBlock) b
 		if !containsFuncType(et, 0) && !localLiteralTable(call.Call.Args[0], fr.fn) && !x.dataOnlyLoop(fr.fn, b) && !isVariadicParam(call.Call.Args[0], fr.fn) {
 			return false
 		}
-		k, isK := x.eval(fr, st, v).(*KConst)
+		var kv Val
+		if in, isInstr := v.(ssa.Instruction); isInstr && in.Block() == b {
+			// the header has not run yet: evaluate len of the (pre-loop) slice directly
+			kv = x.builtin(fr, st, call, []Val{x.eval(fr, st, call.Call.Args[0])})
+		} else {
+			kv = x.eval(fr, st, v)
+		}
+		k, isK := kv.(*KConst)
 		if !isK {
 			return false
 		}
@@ -535,6 +558,52 @@ func (x *Explorer) constantTrip(fr *Frame, st *State, b, pred *ssa.BasicBlock) b
 			return false
 		}
 		return n >= 0 && n <= 8
+	}
+	// `for i := 0; i < N; i++ { … table[i] … }` with N a small constant (len of a local ARRAY literal is folded
+	// to a constant by the SSA builder) and `table` a literal array of this function: a table of cases
+	constTable := func(idx, bnd ssa.Value) bool {
+		k, isC := bnd.(*ssa.Const)
+		if !isC || k.Value == nil || !isIdx(idx) {
+			return false
+		}
+		n, exact := constant.Int64Val(constant.ToInt(k.Value))
+		if !exact || n < 0 || n > 8 {
+			return false
+		}
+		li := x.loopsOf(fr.fn)
+		for blk := range li.body[b] {
+			for _, in := range blk.Instrs {
+				var base, index ssa.Value
+				switch y := in.(type) {
+				case *ssa.IndexAddr:
+					base, index = y.X, y.Index
+				case *ssa.Index:
+					base, index = y.X, y.Index
+				default:
+					continue
+				}
+				if index != idx {
+					continue
+				}
+				if sl, isSl := base.(*ssa.Slice); isSl {
+					base = sl.X
+				}
+				if al, isAl := base.(*ssa.Alloc); isAl {
+					if pt, isP := al.Type().Underlying().(*types.Pointer); isP {
+						if _, isArr := pt.Elem().Underlying().(*types.Array); isArr {
+							return true
+						}
+					}
+				}
+			}
+		}
+		return false
+	}
+	if constTable(bo.X, bo.Y) || constTable(bo.Y, bo.X) {
+		return true
+	}
+	if os.Getenv("E1DEBUG_TRIP") != "" {
+		fmt.Fprintf(os.Stderr, "TRIP %s b=%d op=%s isIdx(X)=%v bound(Y)=%v X=%T Y=%T\n", fr.fn.Name(), b.Index, bo.Op, isIdx(bo.X), bound(bo.Y), bo.X, bo.Y)
 	}
 	return (isIdx(bo.X) && bound(bo.Y)) || (isIdx(bo.Y) && bound(bo.X))
 }
@@ -2251,4 +2320,13 @@ func tcmpFact(c *TCmpV, op token.Token, other Val) Val {
 		}
 	}
 	return &BoolV{F: "Cond(" + c.vs() + op.String() + k.S + ")"}
+}
+
+// isInstrInLoop: v is computed by an instruction inside the loop headed by h.
+func isInstrInLoop(li *loopInfo, h *ssa.BasicBlock, v ssa.Value) bool {
+	in, ok := v.(ssa.Instruction)
+	if !ok || in.Block() == nil {
+		return false
+	}
+	return li.body[h][in.Block()]
 }
